@@ -116,9 +116,9 @@ OpStep(ev) ==
     /\ LET n == MonNext(mon, ev)
            F == Failed(n, ev)
        IN /\ nviol' = nviol + Cardinality(F)
-          /\ \/ F = {}
-             \/ CSVWrite("%1$s", <<ToJson([case |-> cid, line |-> l, e |-> ev.e,
-                                           failed |-> {[prop |-> p, who |-> Who(p, n, ev)] : p \in F}])>>, IOEnv.QXV_VIOL)
+          /\ IF F = {} THEN TRUE
+             ELSE CSVWrite("%1$s", <<ToJson([case |-> cid, line |-> l, e |-> ev.e,
+                                            failed |-> {[prop |-> p, who |-> Who(p, n, ev)] : p \in F}])>>, IOEnv.QXV_VIOL)
     /\ LET d == Proj' # Obs(ev) IN
         /\ dflag' = (dflag \/ d)
         /\ ndiv' = IF d /\ ~dflag THEN ndiv + 1 ELSE ndiv
